@@ -78,4 +78,40 @@ impl WeakCounterMarker {
             self.weak_counter.set(self.weak_counter.get() & !ACCESSIBLE_MASK);
         }
     }
+
+    #[cfg(any(rust_cc_verif, kani))]
+    #[inline]
+    pub(crate) fn verif_from_raw(weak_counter: u16) -> WeakCounterMarker {
+        WeakCounterMarker {
+            weak_counter: Cell::new(weak_counter),
+        }
+    }
+
+    #[cfg(any(rust_cc_verif, kani))]
+    #[inline]
+    pub(crate) fn verif_raw(&self) -> u16 {
+        self.weak_counter.get()
+    }
+
+    #[cfg(any(rust_cc_verif, kani))]
+    #[inline]
+    pub(crate) fn verif_add_counter(&self, n: u16) -> bool {
+        if n > MAX || self.counter() > MAX - n {
+            false
+        } else {
+            self.weak_counter.set(self.weak_counter.get() + n);
+            true
+        }
+    }
+
+    #[cfg(any(rust_cc_verif, kani))]
+    #[inline]
+    pub(crate) fn verif_sub_counter(&self, n: u16) -> bool {
+        if n > self.counter() {
+            false
+        } else {
+            self.weak_counter.set(self.weak_counter.get() - n);
+            true
+        }
+    }
 }
